@@ -566,7 +566,8 @@ fn make(tier: &str, seed: u64) -> Vec<Box<dyn Harness>> {
     add(4, false, true, 2);
     add(4, true, true, 7);
     for host in [reuse::Host::Graph, reuse::Host::Stable, reuse::Host::Map, reuse::Host::Matrix, reuse::Host::Csr, reuse::Host::List] {
-        v.push(Box::new(reuse::Reuse { host }));
+        v.push(Box::new(reuse::Reuse { host, from_default: false }));
+        v.push(Box::new(reuse::Reuse { host, from_default: true }));
     }
     for k in 0..(if tier == "thorough" { 64 } else { 8 }) {
         v.push(Box::new(Uf8 { perm_seed: if k == 0 { 0 } else { seed * 1000 + k } }));
